@@ -207,6 +207,25 @@ def run(ctx):
         ('schema-json', '{"":{"entityTypes":{"A":{"shape":' + '{"type":"Set","element":' * 9000 + '{"type":"Long"}' + '}' * 9000 + '}},"actions":{}}}'),
         ('uid-text', 'A::' * deep + '"a"'),
     ]
+    # 4. short documents (< 3 kB) of moderate depth whose decoding cost must not explode: each level carries a sibling key the typed
+    #    decoder does not know, a duplicate key, or an alternative spelling - the shapes on which a decoder that retries falls back twice
+    pj = '{"effect":"permit","principal":{"op":"All"},"action":{"op":"All"},"resource":{"op":"All"},"conditions":[{"kind":"when","body":%s}]}'
+
+    def nest(shape, leaf, depth):
+        x = leaf
+        for _ in range(depth):
+            x = shape.replace('X', x)
+        return x
+    for depth in (12, 26, 40):
+        for shape in ('{"Set":[X],"zz":[]}', '{"zz":[],"Set":[X]}', '{"!":{"arg":X},"zz":[]}', '{"Record":{"a":X},"zz":[]}', '{"neg":{"arg":X},"decimal":[]}',
+                      '{"is":{"left":X,"entity_type":"T"},"zz":[]}', '{"if-then-else":{"if":X,"then":{"Value":1},"else":{"Value":1}},"zz":[]}',
+                      '{".":{"left":X,"attr":"a"},"zz":[]}', '{"decimal":[X],"zz":[]}', '{"set":[X],"ZZ":[]}', '{"Value":{"a":X},"zz":[]}'):
+            add('policy-json', pj % nest(shape, '{"Value":1}', depth))
+        for shape in ('{"a":X,"__extn":1}', '{"__extn":{"fn":"ip","arg":"1.1.1.1"},"a":X}', '{"__entity":{"type":"A","id":"a"},"a":X}', '{"type":"A","id":"a","x":X}'):
+            add('value-json', nest(shape, '1', depth))
+            add('entitymap-json', '[{"uid":{"type":"A","id":"a"},"parents":[],"attrs":{"x":%s},"tags":{}}]' % nest(shape, '1', depth))
+        for shape in ('{"type":"Set","element":X,"zz":1}', '{"type":"Record","attributes":{"a":X},"zz":1}', '{"type":"Record","attributes":{"a":{"type":"Set","element":X,"required":false}}}'):
+            add('schema-json', '{"":{"entityTypes":{"A":{"shape":{"type":"Record","attributes":{"a":%s}}}},"actions":{}}}' % nest(shape, '{"type":"Long"}', depth))
     ndeep0 = len(cases)
     for which, doc in deepdocs:
         add(which, doc)
